@@ -111,8 +111,11 @@ func verifC12Rest(small, big uint16) string {
 }
 
 func verifC12MakePlan(r *verifC12Rng, idx int) *verifC12Plan {
-	themes := []string{"targets-clash", "emitters-clash", "mixed", "governance", "big", "odd", "wide-gap", "overwrite"}
+	themes := []string{"targets-clash", "emitters-clash", "mixed", "governance", "big", "odd", "wide-gap", "overwrite", "crowded"}
 	p := &verifC12Plan{Idx: idx, Theme: themes[idx%len(themes)], GapOK: true}
+	if p.Theme == "crowded" && (idx/len(themes))%3 != 0 {
+		p.Theme = "mixed" // one crowded store in three rounds of themes: they are large
+	}
 	if idx == 0 {
 		p.Theme = "witness"
 	}
@@ -219,6 +222,20 @@ func verifC12MakePlan(r *verifC12Rng, idx int) *verifC12Plan {
 		}
 		add(ec, a0, big, uint64(wide*(300+r.below(900))))
 		add(ec, a1, small, uint64(wide*(200+r.below(100))))
+	case "crowded":
+		// a short, almost gap-free stream in FRONT of well over a hundred keys of the same emitter under other target chains (an
+		// engine that recycles the buffers of items it has moved past refills them with entries a hundred positions further on)
+		ec := pick()
+		for sq := 0; sq < 30; sq++ {
+			if sq != 11 && sq != 23 {
+				add(ec, a0, 2, uint64(sq))
+			}
+		}
+		for _, tc := range []uint16{255, 4, 42} {
+			for sq := 0; sq < 45; sq++ {
+				add(ec, a0, tc, uint64(1000+sq*7))
+			}
+		}
 	case "overwrite":
 		ec, tc := pick(), pick()
 		for i := 0; i < n; i++ {
